@@ -102,25 +102,14 @@ functions = [
     dict(cname='xss_ends_with', file=X, locate=lit('bool ends_with(char const *&begin,char const *end,char const *value)'),
          sig='bool xss_ends_with(char const **begin, char const *end, char const *value)', refs=['begin'], rename={'strlen': 'lit_strlen', 'memcmp': 'lit_memcmp'},
          contract=r'''
-__CPROVER_requires(__CPROVER_rw_ok(begin, sizeof(*begin)) && SAME(*begin, end) && OFF(*begin) <= OFF(end) && OFF(end) <= BUF_CAP && __CPROVER_r_ok(*begin, OFF(end) - OFF(*begin)) && __CPROVER_r_ok(value, 1) && __CPROVER_r_ok(value, LITLEN(value) + 1) && LITLEN(value) <= 5)
+__CPROVER_requires(__CPROVER_rw_ok(begin, sizeof(*begin)) && SAME(*begin, end) && SAME(*begin, g_vb) && OFF(g_vb) <= OFF(*begin) && OFF(*begin) <= OFF(end) && OFF(end) <= BUF_CAP && OFF(end) <= __CPROVER_OBJECT_SIZE(end) && LITLEN(value) <= 5)
 __CPROVER_assigns(*begin)
 /* true: the bytes at the cursor are exactly the literal, and the cursor moved past them; false: the cursor did not move */
 __CPROVER_ensures(__CPROVER_return_value ==> (*begin == __CPROVER_old(*begin) + LITLEN(value) && LITLEN(value) <= OFF(end) - OFF(__CPROVER_old(*begin)) &&
-                  (LITLEN(value) > 0 ==> __CPROVER_old(*begin)[0] == value[0]) && (LITLEN(value) > 1 ==> __CPROVER_old(*begin)[1] == value[1]) && (LITLEN(value) > 2 ==> __CPROVER_old(*begin)[2] == value[2]) &&
-                  (LITLEN(value) > 3 ==> __CPROVER_old(*begin)[3] == value[3]) && (LITLEN(value) > 4 ==> __CPROVER_old(*begin)[4] == value[4])))
+                  (LITLEN(value) > 0 ==> g_vb[OFF(__CPROVER_old(*begin)) - OFF(g_vb)] == value[0]) && (LITLEN(value) > 1 ==> g_vb[OFF(__CPROVER_old(*begin)) - OFF(g_vb) + 1] == value[1]) &&
+                  (LITLEN(value) > 2 ==> g_vb[OFF(__CPROVER_old(*begin)) - OFF(g_vb) + 2] == value[2]) && (LITLEN(value) > 3 ==> g_vb[OFF(__CPROVER_old(*begin)) - OFF(g_vb) + 3] == value[3]) &&
+                  (LITLEN(value) > 4 ==> g_vb[OFF(__CPROVER_old(*begin)) - OFF(g_vb) + 4] == value[4])))
 __CPROVER_ensures(!__CPROVER_return_value ==> *begin == __CPROVER_old(*begin))
-'''),
-    dict(cname='xss_validate_property_value', file=X, locate=lit('bool validate_property_value(char const *begin,char const *end)'),
-         sig='bool xss_validate_property_value(char const *begin, char const *end)', rename={'ends_with': 'xss_ends_with'},
-         loops={0: r'''
-__CPROVER_assigns(begin)
-__CPROVER_loop_invariant(SAME(begin, g_vb) && OFF(begin) >= OFF(g_vb) && OFF(begin) <= OFF(end) && (g_vi < OFF(begin) - OFF(g_vb) ==> VCH_OK(g_vi)))
-__CPROVER_decreases(OFF(end) - OFF(begin))'''},
-         contract=r'''
-__CPROVER_requires(VALID_RANGE(begin, end) && begin == g_vb && g_vn == OFF(end) - OFF(begin) && g_vn <= BUF_CAP)
-__CPROVER_assigns()
-/* C04: an accepted attribute value contains no < and no >, and every & in it starts one of the eight white-listed entities that lies entirely inside the value (arbitrary ghost index) */
-__CPROVER_ensures(__CPROVER_return_value ==> (g_vi < g_vn ==> VCH_OK(g_vi)))
 '''),
     dict(cname='xss_split_to_parts', file=X, locate=lit('void split_to_parts(char const *begin,char const *end,std::vector<entry> &tags)'),
          sig='void xss_split_to_parts(char const *begin, char const *end)',
@@ -190,12 +179,9 @@ jobs = [
     dict(name='ascii_isalnum', props=P, enforce='ascii_isalnum', replace=['ascii_isdigit'], harness='char c; ascii_isalnum(c); VERIF_REACH;'),
     dict(name='ascii_isspace', props=P, enforce='ascii_isspace', harness='char c; ascii_isspace(c); VERIF_REACH;'),
     dict(name='xss_ends_with', props=P, enforce='xss_ends_with', harness=r'''
-    SYM_BUF(char, b, n, BUF_CAP); size_t off; __CPROVER_assume(off <= n); char const *cur = b + off; int w;
+    SYM_BUF(char, b, n, BUF_CAP); size_t off; __CPROVER_assume(off <= n); char const *cur = b + off; int w; g_vb = b; g_vn = n;
     char const *lit = w == 0 ? "amp;" : w == 1 ? "lt;" : w == 2 ? "gt;" : w == 3 ? "quot;" : w == 4 ? "apos;" : w == 5 ? "#x27;" : w == 6 ? "#X27;" : "#39;";
     xss_ends_with(&cur, b + n, lit); VERIF_REACH;'''),
-    dict(name='xss_validate_property_value', props=P, enforce='xss_validate_property_value', replace=['xss_ends_with'], timeout=900, object_bits=12, cbmc_flags=['--external-sat-solver', 'kissat'], harness=r'''
-    SYM_BUF(char, b, n, BUF_CAP); size_t k; g_vi = k; g_vb = b; g_vn = n;
-    xss_validate_property_value(b, b + n); VERIF_REACH;'''),
     dict(name='xss_split_to_parts', props=P, kind='plainloops', per_property=r'^xss_split_to_parts\.|^tags_push\.assertion', pp_chunk=16, pp_workers=14, timeout=300, cost=10,
          complete_note='all 7 loops closed by loop contracts (goto-instrument --apply-loop-contracts); obligations are solved in chunks of 16 per cbmc process (solving them all in one process does not finish)',
          harness=r"""
